@@ -486,12 +486,45 @@ theorem step_Fo (f : Nat) (hF : PF f) (hB : PB f) (hFo : PFo f) : PFo (f + 1) :=
     · simp only [Bool.false_eq_true, if_false]; exact outP_pure _ _ _ _ _ _ hst vt_unit
     · simp only [if_true]; exact hFo lp ret S g env x itv body .bool t T σ2 henv hg hr hst hitv hb wt ht
 
+theorem step_Pull (f : Nat) (hF : PF f) : PPull (f + 1) := by
+  intro lp ret S it t σ hst hit wt
+  simp only [pull]
+  apply outP_bind lp ret S (fun S' v => VT S' (.tup [.bool, t]) v) _ _ _ σ
+    (hF lp ret S it [] [] (.tup [.bool, t]) σ hst hit.2 hit.1 rfl (by simp [wf, wfL, wt]) ⟨by simp [asTypeL, matchesL], by simp⟩)
+  intro r σ1 S hle hst _ hr1
+  obtain ⟨c, v, rfl, hc, hv⟩ := vt_pair hr1
+  obtain ⟨k, rfl⟩ := vt_bool hc
+  cases k
+  · simp only []
+    exact outP_pure _ _ _ _ _ _ hst (by intro x hx; cases hx)
+  · simp only []
+    exact outP_pure _ _ _ _ _ _ hst (by intro x hx; cases hx; exact hv)
+
+theorem step_Col (f : Nat) (hP : PPull f) (hCol : PCol f) : PCol (f + 1) := by
+  intro lp ret S it acc t σ hst hit wt hacc
+  simp only [collectGo]
+  apply outP_bind lp ret S (fun S' o => ∀ x, o = some x → VT S' t x) _ _ _ σ (hP lp ret S it t σ hst hit wt)
+  intro o σ1 S hle hst _ ho
+  replace hit := vt_mono hle hit
+  have hacc2 : ∀ v ∈ acc, VT S t v := fun v hv => vt_mono hle (hacc v hv)
+  cases o with
+  | none =>
+    simp only []
+    exact outP_pure _ _ _ _ _ _ hst (by intro v hv; exact hacc2 v (by simpa using hv))
+  | some x =>
+    simp only []
+    exact hCol lp ret S it (x :: acc) t σ1 hst hit wt (by
+      intro v hv
+      rcases List.mem_cons.mp hv with rfl | hv
+      · exact ho v rfl
+      · exact hacc2 v hv)
+
 /-- everything at once, for every amount of fuel -/
-theorem all_f : ∀ f : Nat, PE f ∧ PL f ∧ PO f ∧ PS f ∧ PSt f ∧ PV f ∧ PA f ∧ PC f ∧ PF f ∧ PB f ∧ PLp f ∧ PW f ∧ PWS f ∧ PFo f := by
+theorem all_f : ∀ f : Nat, PE f ∧ PL f ∧ PO f ∧ PS f ∧ PSt f ∧ PV f ∧ PA f ∧ PC f ∧ PF f ∧ PB f ∧ PLp f ∧ PW f ∧ PWS f ∧ PFo f ∧ PPull f ∧ PCol f := by
   intro f
   induction f with
   | zero =>
-    refine ⟨?_, ?_, ?_, ?_, ?_, ?_, ?_, ?_, ?_, ?_, ?_, ?_, ?_, ?_⟩
+    refine ⟨?_, ?_, ?_, ?_, ?_, ?_, ?_, ?_, ?_, ?_, ?_, ?_, ?_, ?_, ?_, ?_⟩
     · intro lp ret S g env e T σ _ _ _ _ _; simp [eval, throwS, OutP, okSig]
     · intro lp ret S g env es Ts σ _ _ _ _ _; simp [evalList, throwS, OutP, okSig]
     · intro lp ret S g env o ot σ _ _ _ _ _; simp [evalOpt, throwS, OutP, okSig]
@@ -506,10 +539,12 @@ theorem all_f : ∀ f : Nat, PE f ∧ PL f ∧ PO f ∧ PS f ∧ PSt f ∧ PV f 
     · intro lp ret S g env c body T σ _ _ _ _ _ _; simp [whileGo, throwS, OutP, okSig]
     · intro lp ret S g env x ty e body T1 T σ _ _ _ _ _ _ _; simp [whileSetGo, throwS, OutP, okSig]
     · intro lp ret S g env x itv body b t T σ _ _ _ _ _ _ _ _; simp [forGo, throwS, OutP, okSig]
+    · intro lp ret S it t σ _ _ _; simp [pull, throwS, OutP, okSig]
+    · intro lp ret S it acc t σ _ _ _ _; simp [collectGo, throwS, OutP, okSig]
   | succ f ih =>
-    obtain ⟨hE, hL, hO, hS, hSt, hV, hA, hC, hF, hB, hLp, hW, hWS, hFo⟩ := ih
-    exact ⟨step_E f hE hL hS hA hO hF hLp hW hWS hFo, step_L f hE hL, step_O f hE, step_S f hSt hS, step_St f hE hV, step_V f hE,
-      step_A f hE hC hA, step_C f hE hC, step_F f hS, step_B f hE, step_Lp f hB hLp, step_W f hE hB hW, step_WS f hE hB hWS, step_Fo f hF hB hFo⟩
+    obtain ⟨hE, hL, hO, hS, hSt, hV, hA, hC, hF, hB, hLp, hW, hWS, hFo, hPull, hCol⟩ := ih
+    exact ⟨step_E f hE hL hS hA hO hF hLp hW hWS hFo hCol, step_L f hE hL, step_O f hE, step_S f hSt hS, step_St f hE hV, step_V f hE,
+      step_A f hE hC hA, step_C f hE hC, step_F f hS, step_B f hE, step_Lp f hB hLp, step_W f hE hB hW, step_WS f hE hB hWS, step_Fo f hF hB hFo, step_Pull f hF, step_Col f hPull hCol⟩
 
 /-- **soundness and progress with functions, mutable cells and loops**: for an expression the checker model types, the
     reference evaluator - with any fuel, from any store `σ` that respects a store typing `S`, in any environment whose
